@@ -62,6 +62,17 @@ pub assume_specification[ f64::is_infinite ](x: f64) -> (r: bool)
         r == f64_is_infinite(x),
 ;
 
+pub assume_specification[ f64::is_finite ](x: f64) -> (r: bool)
+    ensures
+        r == f64_is_finite(x),
+;
+
+/// `a > b` on floats (N11); the result is only used to tell the two infinities apart
+#[verifier::external_body]
+pub fn vx_f64_gt(a: f64, b: f64) -> (r: bool) {
+    a > b
+}
+
 pub assume_specification[ f64::powi ](x: f64, n: i32) -> f64;
 
 pub assume_specification[ f64::powf ](x: f64, n: f64) -> f64;
